@@ -190,6 +190,15 @@ func (v valset) coq() string {
 // forged copy: same hashes, altered list
 func (w *world) forge(v valset) valset {
 	f := valset{keys: append([]int{}, v.keys...), pows: append([]uint64{}, v.pows...), ok: false}
+	if w.r.chance(1, 3) && len(f.keys) > 0 {
+		// only the separate PubKeys slice is altered; Validators and both hashes stay as they are
+		pks := make([]gcrypto.PubKey, len(v.vs.PubKeys))
+		copy(pks, v.vs.PubKeys)
+		i := w.r.below(len(pks))
+		pks[i] = w.pool[(v.keys[i]+1+w.r.below(poolSize-1))%poolSize].Val.PubKey
+		f.vs = tmconsensus.ValidatorSet{Validators: v.vs.Validators, PubKeys: pks, PubKeyHash: v.vs.PubKeyHash, VotePowerHash: v.vs.VotePowerHash}
+		return f
+	}
 	if w.r.chance(1, 2) || len(f.keys) == 0 {
 		f.pows[w.r.below(len(f.pows))] += 1000
 	} else {
@@ -538,6 +547,8 @@ type runner struct {
 	replayIn   chan tmelink.ReplayedHeaderRequest
 	hcChans    []hcChan // HeightCommitted channels handed to the kernel, still open
 
+	script []string // scripted operations still to run: interleaving templates that random choice rarely lines up
+
 	io               string   // what a consumer operation received (tr), consumed by the next observe()
 	committedSignals []uint64 // heights whose HeightCommitted channel was closed by the kernel
 
@@ -815,6 +826,12 @@ func (rn *runner) replay(v, c *tmconsensus.VersionedRoundView) {
 	rn.stats[fmt.Sprintf("replay_variant_%d", variant)]++
 	rn.stats[fmt.Sprintf("replay_res_%d", code)]++
 	rn.emit(fmt.Sprintf("(OpReplay %s %s)", rn.coqHdr(hd, hashOK, curHdr, nextHdr), w.coqCProof(proof)), code)
+	if code == 2 && h == H && w.r.chance(1, 2) {
+		// the replay was refused: the same precommits arriving as ordinary gossip must not commit it either
+		rn.stats["replay_refused_then_gossip"]++
+		rn.doVotes(kindPrecommit, h, r, string(cur.vs.PubKeyHash), []voteEntry{{string(hd.Hash),
+			rn.mkSigs(cur, kindPrecommit, h, r, string(hd.Hash), allIdx(len(cur.keys)), 0)}})
+	}
 }
 
 func (rn *runner) valsFor(h uint64) valset {
@@ -1008,7 +1025,15 @@ func (rn *runner) mkSigs(vs valset, kind int, h uint64, r uint32, target string,
 			key = vs.keys[i]
 		}
 		if flawRate > 0 && w.r.below(100) < flawRate {
-			switch w.r.below(7) {
+			switch w.r.below(8) {
+			case 7: // a genuine signature of ANOTHER validator for this very target, re-filed under this key id
+				other := (i + 1 + w.r.below(max(len(vs.keys)-1, 1))) % max(len(vs.keys), 1)
+				okey := 0
+				if other < len(vs.keys) {
+					okey = vs.keys[other]
+				}
+				sig = w.voteSig(okey, kind, h, r, target)
+				rn.stats["flaw_reused_sig"]++
 			case 0:
 				sig = w.junkSig()
 				rn.stats["flaw_junk"]++
@@ -1095,6 +1120,30 @@ func (rn *runner) step() {
 		}
 	}
 	v, c := rn.views()
+	if len(rn.script) > 0 {
+		op := rn.script[0]
+		rn.script = rn.script[1:]
+		if rn.scripted(op, &v, &c) {
+			return
+		}
+		rn.script = nil
+	} else if rn.pendingCrash < 0 && w.r.chance(1, 25) {
+		switch y := w.r.below(3); {
+		case y == 0 && rn.consumers && rn.entered && rn.lastEnterH == v.Height && rn.lastEnterR == v.Round:
+			// the mirror jumps a round while the state machine is not reading; the state machine enters
+			// that round by itself and only then reads
+			rn.stats["script_jump_enter_race"]++
+			rn.script = []string{"nextround-all", "enter-voting", "vote-here", "smread", "smread"}
+		case y == 1 && rn.consumers && rn.entered:
+			// the state machine stalls while the network commits several heights
+			rn.stats["script_stalled_sm"]++
+			rn.script = []string{"propose", "precommit-all", "propose", "precommit-all", "propose", "precommit-all", "propose", "precommit-all", "smread", "gread"}
+		case y == 2:
+			// a whole round in order: proposal, prevotes, precommits by everyone
+			rn.stats["script_full_round"]++
+			rn.script = []string{"propose", "prevote-all", "precommit-all"}
+		}
+	}
 	if rn.consumers {
 		switch x := w.r.below(100); {
 		case x < 10: // the state machine enters a round the mirror can answer for; like a real state
@@ -1108,6 +1157,9 @@ func (rn *runner) step() {
 				eh, er = c.Height, c.Round
 			case c.Height > rn.initH:
 				eh, er = c.Height-1, 0
+			}
+			if rn.entered && rn.lastEnterH == v.Height && rn.lastEnterR < v.Round && w.r.chance(2, 3) {
+				eh, er = v.Height, v.Round
 			}
 			if eh > rn.lastEnterH || (eh == rn.lastEnterH && er > rn.lastEnterR) || !rn.entered {
 				rn.entered, rn.lastEnterH, rn.lastEnterR = true, eh, er
@@ -1216,6 +1268,44 @@ func (rn *runner) step() {
 	default: // odd proposals
 		rn.proposal(&v, &c, H, R, 1+w.r.below(11))
 	}
+}
+
+// scripted runs one operation of an interleaving template against the mirror's current position;
+// false: the template no longer applies.
+func (rn *runner) scripted(op string, v, c *tmconsensus.VersionedRoundView) bool {
+	H, R := v.Height, v.Round
+	cur := rn.valsFor(H)
+	n := len(cur.keys)
+	pkh := string(cur.vs.PubKeyHash)
+	target := ""
+	if phs := rn.knownPHs[hr{H, R}]; len(phs) > 0 {
+		target = string(phs[len(phs)-1].Header.Hash)
+	}
+	switch op {
+	case "nextround-all":
+		rn.doVotes(kindPrevote, H, R+1, pkh, []voteEntry{{"", rn.mkSigs(cur, kindPrevote, H, R+1, "", allIdx(n), 0)}})
+	case "enter-voting":
+		if !(H > rn.lastEnterH || (H == rn.lastEnterH && R > rn.lastEnterR) || !rn.entered) {
+			return false
+		}
+		rn.entered, rn.lastEnterH, rn.lastEnterR = true, H, R
+		rn.doEnter(H, R)
+	case "vote-here":
+		rn.doVotes(kindPrevote, H, R, pkh, []voteEntry{{target, rn.mkSigs(cur, kindPrevote, H, R, target, rn.randSubset(n, 1), 0)}})
+	case "prevote-all":
+		rn.doVotes(kindPrevote, H, R, pkh, []voteEntry{{target, rn.mkSigs(cur, kindPrevote, H, R, target, allIdx(n), 0)}})
+	case "precommit-all":
+		rn.doVotes(kindPrecommit, H, R, pkh, []voteEntry{{target, rn.mkSigs(cur, kindPrecommit, H, R, target, allIdx(n), 0)}})
+	case "propose":
+		rn.proposal(v, c, H, R, 0)
+	case "smread":
+		rn.doSMRead()
+	case "gread":
+		rn.doGRead()
+	default:
+		panic("unknown scripted op " + op)
+	}
+	return true
 }
 
 func (rn *runner) mkSigsNoKid(vs valset, kind int, h uint64, r uint32, target string, idxs []int, flawRate int) []gcrypto.SparseSignature {
